@@ -1100,12 +1100,12 @@ where
 
     /// Returns a guard for the pointer to the underlying memory.
     pub fn ptr_guard(&self) -> PtrGuard {
-        PtrGuard::read(self.mmap, self.addr, self.len())
+        PtrGuard::read(self.mmap, self.addr, self.len() * self.element_size())
     }
 
     /// Returns a mutable guard for the pointer to the underlying memory.
     pub fn ptr_guard_mut(&self) -> PtrGuardMut {
-        PtrGuardMut::write(self.mmap, self.addr, self.len())
+        PtrGuardMut::write(self.mmap, self.addr, self.len() * self.element_size())
     }
 
     /// Borrows the inner `BitmapSlice`.
